@@ -10,3 +10,9 @@ open Biogo.Properties.C08_lin
 #print axioms sw_returns_optimal
 #print axioms trace_faithful_fit
 #print axioms fitted_opt_at_end
+#print axioms scoring_reads_matrix_entries
+#print axioms nw_returns_optimal_any_size
+#print axioms sw_returns_optimal_any_size
+#print axioms fitted_opt_at_end_any_size
+#print axioms nw_total_ignores_extra_rows
+#print axioms sw_total_ignores_extra_rows
